@@ -155,6 +155,15 @@ int rings() {
   std::vector<Tracked> vin(3), vout(3);
   (void)s.try_push_batch(vin.begin(), vin.end());
   (void)s.try_pop_batch(vout.begin(), 3);
+  // exact (non power-of-two) internal sizes: 5 and 7 slots
+  dispenso::SPSCRingBuffer<Tracked, 4, false> s5;
+  (void)s5.try_push_batch(vin.begin(), vin.end());
+  (void)s5.try_pop_batch(vout.begin(), 3);
+  dispenso::SPSCRingBuffer<Tracked, 6, false> s7;
+  (void)s7.try_push_batch(vin.begin(), vin.end());
+  (void)s7.try_pop_batch(vout.begin(), 3);
+  (void)s7.try_push(t);
+  (void)s7.try_pop(t);
 
   dispenso::ChaseLevDeque<int*, 64> d;
   int x = 0;
